@@ -25,33 +25,54 @@ BINS = ["drive_sigcheck"]
 GEN_CFG = ["SPECIFICATION GSpec", "CONSTANTS", "  M = 64", "  Inc = 8", "  Exp = 14", "  IncAlt = 5", "  ExpAlt = 19",
            "  OrigTtl = 5", "  OrigTtlAlt = 9", "  RecTtls <- P_RecTtls", "  Steps <- P_Steps", "  MaxMono = 0",
            "  MaxCalls = {maxcalls}", "  ClkStarts <- P_Starts", "  ArgSet <- P_Args", "  RRV <- P_RRV", "  SIGV <- P_SIGV",
-           "  KEYV <- P_KEYV", "  NameCaseSigned = {ncs}", '  CacheRule = "required"', "  MaxLog = {maxlog}",
+           "  KEYV <- P_KEYV", "  NameCaseSigned = {ncs}", '  CacheRule = "required"', "  CfgMin = 0", "  CfgMax = 99",
+           '  Deviation = "none"', "  Cfgs <- P_Cfgs", "  MaxLog = {maxlog}",
            "  MaxVariantCalls = {maxvar}", "INVARIANT Emit", "CHECK_DEADLOCK FALSE"]
 
 G = '[rr |-> "genuine", sig |-> "genuine", key |-> "genuine", rttl |-> {}]'
 SMALL_ARGS = ("{" + ", ".join([G.format(2), G.format(5), G.format(100),
                                '[rr |-> "genuine", sig |-> "exp", key |-> "genuine", rttl |-> 100]',
                                '[rr |-> "rdataNameCase", sig |-> "genuine", key |-> "genuine", rttl |-> 5]',
-                               '[rr |-> "genuine", sig |-> "genuine", key |-> "otherKey", rttl |-> 5]']) + "}")
+                               '[rr |-> "genuine", sig |-> "genuine", key |-> "otherKey", rttl |-> 5]',
+                               '[rr |-> "addOtherClass", sig |-> "genuine", key |-> "genuine", rttl |-> 5]',
+                               '[rr |-> "genuine", sig |-> "forged", key |-> "childKey", rttl |-> 5]']) + "}")
+ALL_CFGS = '{"none", "minAbove", "maxBelow"}'
 # name, defs, maxcalls, maxlog, maxvar, nameCaseSigned
+GENUINE_ARGS = "{" + ", ".join([G.format(2), G.format(5), G.format(100)]) + "}"
+NONE = '{"none"}'
 GEN_QUICK = [
-    ("single", {"P_RecTtls": "{2, 5, 100}", "P_Steps": "{1, 3, 4, 7}", "P_Starts": "{7, 8, 11, 14, 15}",
-                "P_Args": "SingleVariantArgs", "P_RRV": "AllRRV", "P_SIGV": "AllSIGV", "P_KEYV": "AllKEYV"}, 2, 3, 1, "TRUE"),
-    ("folded", {"P_RecTtls": "{2, 100}", "P_Steps": "{1, 7}", "P_Starts": "{8, 14}",
+    ("single", {"P_RecTtls": "{2, 5, 100}", "P_Steps": "{1, 3, 4, 7}", "P_Starts": "{7, 8, 11, 14, 15}", "P_Cfgs": NONE,
+                "P_Args": "PropertyArgs", "P_RRV": "AllRRV", "P_SIGV": "AllSIGV", "P_KEYV": "AllKEYV"}, 2, 3, 1, "TRUE"),
+    ("folded", {"P_RecTtls": "{2, 100}", "P_Steps": "{1, 7}", "P_Starts": "{8, 14}", "P_Cfgs": NONE,
                 "P_Args": "SingleVariantArgs", "P_RRV": '{"genuine", "rdataNameCase", "ownerCase", "rdataBit"}',
                 "P_SIGV": '{"genuine", "signerCase", "exp"}', "P_KEYV": '{"genuine", "otherKey"}'}, 2, 3, 2, "FALSE"),
-    ("three", {"P_RecTtls": "{2, 5, 100}", "P_Steps": "{1, 3, 7}", "P_Starts": "{8, 11, 14}",
-               "P_Args": SMALL_ARGS, "P_RRV": "AllRRV", "P_SIGV": "AllSIGV", "P_KEYV": "AllKEYV"}, 3, 5, 3, "TRUE"),
+    ("three", {"P_RecTtls": "{2, 5, 100}", "P_Steps": "{1, 3, 7}", "P_Starts": "{8, 11, 14}", "P_Cfgs": NONE,
+               "P_Args": SMALL_ARGS, "P_RRV": "AllRRV", "P_SIGV": "AllSIGV", "P_KEYV": "AllKEYV"}, 3, 5, 2, "TRUE"),
+    # the validation-cache TTL configuration as a dimension: genuine objects, time passing
+    ("config", {"P_RecTtls": "{2, 5, 100}", "P_Steps": "{1, 3, 7}", "P_Starts": "{8, 11, 14}", "P_Cfgs": ALL_CFGS,
+                "P_Args": GENUINE_ARGS, "P_RRV": "AllRRV", "P_SIGV": "AllSIGV", "P_KEYV": "AllKEYV"}, 3, 5, 0, "TRUE"),
+    ("config2", {"P_RecTtls": "{5, 100}", "P_Steps": "{3, 7}", "P_Starts": "{8, 11}", "P_Cfgs": ALL_CFGS,
+                 "P_Args": SMALL_ARGS, "P_RRV": "AllRRV", "P_SIGV": "AllSIGV", "P_KEYV": "AllKEYV"}, 2, 3, 1, "TRUE"),
 ]
 GEN_THOROUGH = GEN_QUICK + [
-    ("double", {"P_RecTtls": "{2, 5, 100}", "P_Steps": "{1, 4, 7}", "P_Starts": "{8, 11, 14}",
-                "P_Args": "SingleVariantArgs", "P_RRV": "AllRRV", "P_SIGV": "AllSIGV", "P_KEYV": "AllKEYV"}, 2, 3, 2, "TRUE"),
-    ("four", {"P_RecTtls": "{2, 5, 100}", "P_Steps": "{1, 3, 7}", "P_Starts": "{8, 11, 14}",
-              "P_Args": SMALL_ARGS, "P_RRV": "AllRRV", "P_SIGV": "AllSIGV", "P_KEYV": "AllKEYV"}, 4, 7, 4, "TRUE"),
+    ("double", {"P_RecTtls": "{2, 5, 100}", "P_Steps": "{1, 4, 7}", "P_Starts": "{8, 11, 14}", "P_Cfgs": NONE,
+                "P_Args": "SingleVariantArgs \\cup ForgedArgs", "P_RRV": "AllRRV", "P_SIGV": "AllSIGV", "P_KEYV": "AllKEYV"},
+     2, 3, 2, "TRUE"),
+    ("four", {"P_RecTtls": "{2, 5, 100}", "P_Steps": "{1, 3, 7}", "P_Starts": "{8, 11, 14}", "P_Cfgs": ALL_CFGS,
+              "P_Args": "{" + ", ".join([G.format(2), G.format(5), G.format(100),
+                                         '[rr |-> "genuine", sig |-> "exp", key |-> "genuine", rttl |-> 100]',
+                                         '[rr |-> "rdataNameCase", sig |-> "genuine", key |-> "genuine", rttl |-> 5]',
+                                         '[rr |-> "genuine", sig |-> "genuine", key |-> "otherKey", rttl |-> 5]']) + "}",
+              "P_RRV": "AllRRV", "P_SIGV": "AllSIGV", "P_KEYV": "AllKEYV"}, 4, 7, 4, "TRUE"),
+    ("three-config", {"P_RecTtls": "{2, 5, 100}", "P_Steps": "{1, 3, 7}", "P_Starts": "{8, 11, 14}", "P_Cfgs": ALL_CFGS,
+                      "P_Args": SMALL_ARGS, "P_RRV": "AllRRV", "P_SIGV": "AllSIGV", "P_KEYV": "AllKEYV"}, 3, 5, 3, "TRUE"),
 ]
 
-MC_CFGS = [("MC_SigCheck_variants", ("CacheHit", "Advance")), ("MC_SigCheck_history", ())]
-MC_THOROUGH = [("MC_SigCheck_history3", ())]
+MC_CFGS = [("MC_SigCheck_variants", ("CacheHit", "Advance")), ("MC_SigCheck_history", ()), ("MC_SigCheck_history_min", ())]
+MC_THOROUGH = [("MC_SigCheck_history_max", ()), ("MC_SigCheck_history3", ())]
+# deliberate deviations of the machine from a required rule: each must yield a counterexample
+DEVIATIONS = [("clampAfterCap", "C06_SecureOnlyInWindow"), ("markGroup", "C06_StrayNeverSecure"),
+              ("signerZoneOf", "C06_SecureOnlyGenuine")]
 
 
 def _alteration(note, parts=("rr", "sig", "key")):
@@ -66,7 +87,11 @@ def _alteration(note, parts=("rr", "sig", "key")):
     return ",".join(ps) or "none"
 
 
-def classify(why_signed, why_window, why_key, ttl_ok, cached, note):
+def classify(why_signed, why_window, why_key, ttl_ok, cached, note, covered=True):
+    if not covered:
+        # a record that is not a member of the RRset the RRSIG belongs to (owner, class, type)
+        return "secure-not-allowed", {"reason": "record-not-covered", "alteration": _alteration(note, ("rr", "sig")),
+                                      "cached": cached}
     if not why_signed:
         return "secure-not-allowed", {"reason": "signed-data-altered", "alteration": _alteration(note, ("rr", "sig")),
                                       "cached": cached}
@@ -114,6 +139,17 @@ def run(res, tier, seed):
         rc, out = vlib.tlc(tla_p, cfg_p, wd, workers=4, timeout=600)
         asis[inv] = f"Invariant {inv} is violated" in out
     res.extra["asis_cache_rule_violates"] = asis
+    dev = {}
+    base = open(os.path.join(vlib.SPEC, "MC_SigCheck_history_min.cfg")).read().splitlines()
+    for d, inv in DEVIATIONS:
+        lines = [f'  Deviation = "{d}"' if l.strip().startswith("Deviation") else ("INVARIANTS " + inv) if l.startswith("INVARIANTS")
+                 else l for l in base]
+        tla_p, cfg_p = vlib.wrapper(wd, "Dev_" + d, "MC_SigCheck", {}, lines)
+        rc, out = vlib.tlc(tla_p, cfg_p, wd, workers=4, timeout=600)
+        dev[d] = f"Invariant {inv} is violated" in out
+        if not dev[d]:
+            raise vlib.ToolError(f"vacuous model: deviation {d} does not violate {inv}")
+    res.extra["deviation_counterexamples"] = dev
 
     # ---- R
     traces = []
@@ -139,7 +175,7 @@ def run(res, tier, seed):
             n += 1
             res.evaluations += len(v["observed"])
             if v["nontrivial"]:
-                res.nontrivial.add(vlib.digest([c["log"], v["placement"], v["type"], v["alg"]]))
+                res.nontrivial.add(vlib.digest([c["log"], c["cfg"], v["placement"], v["type"], v["alg"]]))
             w = v.get("witness") or {}
             if w.get("fresh") == "Secure" and w.get("secure"):
                 witnessed += 1
@@ -151,7 +187,9 @@ def run(res, tier, seed):
                 why = f.get("why") or {}
                 note = {k: f.get(k, "genuine") for k in ("rr", "sig", "key")}
                 cls_, fields = classify(why.get("signed", True), why.get("window", True), why.get("key", True),
-                                        f["what"] != "ttl-exceeds-lifetime", bool(f["cached"]), note)
+                                        f["what"] != "ttl-exceeds-lifetime", bool(f["cached"]), note,
+                                        covered=f["what"] != "stray-secure")
+                fields["cfg"] = v.get("cfg", "none")
                 res.mismatch(cls_, fields, detail)
             if v["ok"] and len(v["observed"]) >= 2 and any(o["secure"] for o in v["observed"]):
                 res.sample({"generator": nm, "placement": v["placement"], "history": c["log"], "observed": v["observed"]}, cap=2)
@@ -211,8 +249,9 @@ def run(res, tier, seed):
             res.mismatch("secure-without-rrsig", {"alteration": _alteration(m["note"]), "cached": cached}, m)
             continue
         for w in ws:
-            cls_, fields = classify(w["belongs"] and w["exact"] and w["signature"], w["window"], w["key"] or w["estab"], w["ttl"],
-                                    cached, m["note"])
+            cls_, fields = classify(w["exact"] and w["signature"], w["window"], w["key"] or w["estab"], w["ttl"],
+                                    cached, m["note"], covered=w["belongs"])
+            fields["cfg"] = m.get("cfg", "?")
             res.mismatch(cls_, fields, m)
 
 
